@@ -27,6 +27,7 @@ RULE = ('cases = (a) score matrices over the value grid {0.1,0.4,0.7,0.9} for 2.
         'vector different from the current arg-max counts (a) / a model in which the refinement '
         'changed at least one layer (c); distinct = hash of (scores, targets) / (model, coeffs).')
 RULE += ('  Round 3: end-to-end cases with 33..72-channel layers; a wrapper on _compute_cost records every configuration the refinement evaluates and the applied one must be a cheapest of them.')
+RULE += ('  Round 5: 0 bit at any position of the tuple; tile-edge cases (first layer 16m+p channels with p pruned before an expensive 3x3 layer); refinement called in train mode with soft sampling or with stale samples.')
 ASSUMPTIONS = [
     'bit-widths before / after are read from summary() (arg-max of the raw coefficients)',
     'the counts "the refinement chose" are the targets handed to the reassignment step, observed '
@@ -70,6 +71,8 @@ def cases(tier, seed):
     # these can make a multi-step promotion (two precisions gaining channels) the cheapest move
     for i in range(48 if tier == 'quick' else 400):
         cs.append({'kind': 'e2e', 'seed': seed * 15485863 + i, 'zero': i % 3 == 2, 'wide': True})
+    for i in range(16 if tier == 'quick' else 200):
+        cs.append({'kind': 'e2e', 'seed': seed * 32452843 + i, 'zero': True, 'wide': 'tile-edge'})
     return cs
 
 
@@ -211,10 +214,16 @@ def ne16_program(rng, wide=False):
         H = W = rng.randint(3, 5)
         b.shapes['x0'] = (c0, H, W)
         b.origin['x0'] = 'input'
-        t = b.conv('x0', cout=rng.randint(33, 72), k=rng.choice([1, 3]), d=1, s=1, pad='same')
+        edge = wide == 'tile-edge'
+        # 'tile-edge': the first layer is a few channels wider than a multiple of 16 (run_e2e prunes
+        # exactly those), followed by an expensive 3x3 layer: one more alive channel in the first
+        # layer costs a whole extra input tile in the second
+        c1 = 16 * rng.randint(1, 3) + rng.randint(1, 3) if edge else rng.randint(33, 72)
+        t = b.conv('x0', cout=c1, k=rng.choice([1, 3]), d=1, s=1, pad='same')
         t = b.act(t, 'relu_mod')
-        if rng.random() < 0.5:
-            t = b.conv(t, cout=rng.randint(33, 72), k=rng.choice([1, 3]), d=1, s=1, pad='same')
+        if edge or rng.random() < 0.5:
+            t = b.conv(t, cout=rng.randint(33, 72), k=3 if edge else rng.choice([1, 3]), d=1, s=1,
+                       pad='same')
             t = b.act(t, 'relu_mod')
         t = b.flat(b.pool(t, 'aavg'))
         t = b.lin(t, fout=rng.randint(2, 4))
@@ -255,11 +264,14 @@ def run_e2e(case, ctx):
     from plinio.cost import ne16_latency
     from plinio.methods.mps.utils import optimize_prec_assignment
     rng = random.Random(case['seed'])
-    prog = ne16_program(rng, wide=bool(case.get('wide')))
+    prog = ne16_program(rng, wide=case.get('wide') or False)
     # (incl. orders whose sorting permutation is not its own inverse: (4, 8, 2), (8, 2, 4))
     w_prec = rng.choice([(2, 4, 8), (8, 4, 2), (4, 8), (2, 8), (4, 8, 2), (8, 2, 4), (8, 2)])
     if case['zero']:
-        w_prec = (0,) + tuple(w_prec)
+        # the 0-bit (pruning) option at any position of the tuple
+        pos = rng.randrange(1, len(w_prec) + 1) if case.get('wide') == 'tile-edge' else (
+            rng.randrange(len(w_prec) + 1) if case['seed'] % 2 else 0)
+        w_prec = tuple(w_prec[:pos]) + (0,) + tuple(w_prec[pos:])
     try:
         model, mps, xs = mpslib.convert_mps(prog, case['seed'], w_prec, (8,), per_channel=True,
                                             cost={'ne16': ne16_latency})
@@ -283,6 +295,24 @@ def run_e2e(case, ctx):
                     q.alpha.data[:, c] = torch.tensor([rng.uniform(-1.0, 0.0) for _ in precs])
                     q.alpha.data[win, c] = rng.uniform(0.5, 1.5)
         ctx.cls('e2e-wide-skewed')
+    if case.get('wide') == 'tile-edge':
+        # prune exactly the channels above the multiple of 16 in the first layer
+        first = next(op for op in prog['ops'] if op['op'] == 'conv')
+        for kind, names, q in mpslib.unique_qtz(mps):
+            if kind == 'w' and q.alpha.dim() == 2 and any(n.startswith(first['name'] + '.')
+                                                          for n in names):
+                precs = [int(p) for p in q.precision.tolist()]
+                if 0 in precs:
+                    zr = precs.index(0)
+                    C = q.alpha.shape[1]
+                    with torch.no_grad():
+                        for c in range(C):
+                            if c >= (C // 16) * 16:
+                                q.alpha.data[:, c] = -1.0
+                                q.alpha.data[zr, c] = 1.0
+                            elif int(q.alpha.data[:, c].argmax()) == zr:
+                                q.alpha.data[zr, c] = -2.0
+        ctx.cls('e2e-tile-edge')
     with torch.no_grad():
         mps(mps._input_example)
     before = bits_of(mps.summary())
@@ -299,6 +329,12 @@ def run_e2e(case, ctx):
             mps(mps._input_example)
         mps.eval()
         ctx.cls('e2e-stale-samples-at-call')
+    if (case['seed'] // 7) % 3 == 0:
+        # the refinement is called on a model left in training mode with soft sampling (the state a
+        # search loop leaves it in)
+        mps.update_softmax_options(hard=False)
+        mps.train()
+        ctx.cls('e2e-called-in-train-mode-soft')
     _rec['calls'].clear()
     _rec['evaluated'] = []
     buf = io.StringIO()
